@@ -2,6 +2,7 @@ package main
 
 import (
 	"fmt"
+	"go/constant"
 	"go/token"
 	"go/types"
 	"regexp"
@@ -635,7 +636,7 @@ func (ro *Roles) acceptEffects(r *Report, which map[string]bool) {
 			}
 			if which["shutdown-gate"] && strings.Contains(p.Ret[1], "ErrShuttingDown") {
 				// the gate is the first branch
-				first := len(p.Lits) > 0 && strings.HasSuffix(p.Lits[0].Atom.L, ".isShuttingDown") && p.Lits[0].Val
+				first := len(p.Lits) > 0 && strings.HasSuffix(p.Lits[0].Atom.L, ".isShuttingDown") && flagSetLit(p.Lits[0])
 				note("accept.shutdown-gate", fname+": shutting-down test first", first, pos, "the shutting-down flag is not the first test of the accept function")
 			}
 			continue
@@ -836,4 +837,35 @@ func substFreshFields(effs []Effect) []Effect {
 		out[i] = e2
 	}
 	return out
+}
+
+// isTruthyConst: the constant true, or a non-zero integer constant (a state of a small enum).
+func isTruthyConst(v ssa.Value) bool {
+	c, ok := v.(*ssa.Const)
+	if !ok || c.Value == nil {
+		return false
+	}
+	if c.Value.Kind() == constant.Bool {
+		return constant.BoolVal(c.Value)
+	}
+	if c.Value.Kind() == constant.Int {
+		n, exact := constant.Int64Val(c.Value)
+		return exact && n != 0
+	}
+	return false
+}
+
+// flagSetLit: the literal holds exactly when the flag (bool, or enum with 0 = not set) is set.
+func flagSetLit(l Lit) bool {
+	switch {
+	case l.Atom.Op == "true":
+		return l.Val
+	case l.Atom.Op == "==" && l.Atom.R != "0":
+		return l.Val
+	case l.Atom.Op == "==" && l.Atom.R == "0", l.Atom.Op == "!=" && l.Atom.R != "0":
+		return !l.Val
+	case l.Atom.Op == "!=" && l.Atom.R == "0":
+		return l.Val
+	}
+	return false
 }
